@@ -17,7 +17,7 @@ fn main() {
         } }
     }
     println!("punctuation: {n} cases, {bad} disagreements");
-    let alpha: [&'static [u8]; 9] = [b"N", b"n", b"I", b"i", b"a", b"Z", b"1", b" ", b"\x80"];
+    let alpha: [&'static [u8]; 12] = [b"N", b"n", b"I", b"i", b"a", b"Z", b"1", b" ", b"\x80", b"\xC1", b"\xE9", b"["];
     let mut strs: Vec<Option<&'static [u8]>> = vec![None, Some(b"")];
     for a in alpha { strs.push(Some(a)); for b in alpha { let v: &'static [u8] = Box::leak([a, b].concat().into_boxed_slice()); strs.push(Some(v)); for c in [b"f" as &[u8], b"N", b"1"] { let v: &'static [u8] = Box::leak([a, b, c].concat().into_boxed_slice()); strs.push(Some(v)); } } }
     let long: &'static [u8] = Box::leak(vec![b'n'; 51].into_boxed_slice()); strs.push(Some(long));
@@ -29,4 +29,13 @@ fn main() {
         if b.is_valid() != spec_parse_options_valid(e, d, nan, inf, infinity) { bad2 += 1; if bad2 < 6 { println!("  opts e={e} d={d} nan={nan:?} inf={inf:?} infinity={infinity:?}: real {}", b.is_valid()); } }
     } } } }
     println!("parse-float options: {n2} cases, {bad2} disagreements");
+    let (mut n3, mut bad3) = (0u64, 0u64);
+    for &nan in &strs { for &inf in &strs { for (e, d) in [(b'e', b'.'), (0u8, b'.'), (b'e', 0x7f), (0x80, b','), (9, 13)] {
+        n3 += 1;
+        let b = lexical_write_float::Options::builder().exponent(e).decimal_point(d).nan_string(nan).inf_string(inf);
+        if b.is_valid() != spec_write_options_valid(e, d, nan, inf) { bad3 += 1; if bad3 < 6 { println!("  wopts e={e} d={d} nan={nan:?} inf={inf:?}: real {}", b.is_valid()); } }
+    } } }
+    println!("write-float options: {n3} cases, {bad3} disagreements");
+    let mut bad4 = 0; for c in 0..=255u8 { if lexical_util::ascii::is_valid_letter(c) != c.is_ascii_alphabetic() { bad4 += 1; } }
+    println!("is_valid_letter: 256 bytes, {bad4} disagreements");
 }
